@@ -947,6 +947,9 @@ ssize_t qlisttbl_load(qlisttbl_t *tbl, const char *filepath, char sepchar,
 
     // parse
     qlisttbl_lock(tbl);
+    // always append at the bottom to preserve the saved order.
+    bool inserttop = tbl->inserttop;
+    tbl->inserttop = false;
     char *offset, *buf;
     int cnt = 0;
     for (offset = str; *offset != '\0'; ) {
@@ -976,6 +979,7 @@ ssize_t qlisttbl_load(qlisttbl_t *tbl, const char *filepath, char sepchar,
         free(name);
         free(data);
     }
+    tbl->inserttop = inserttop;
     qlisttbl_unlock(tbl);
     free(str);
 
